@@ -1149,7 +1149,9 @@ Proof.
     destruct (clamped_in p Hz Hx Hcl) as [P0 P1].
     assert (Q : in_ax z (get 0 (s_pcur s') [0%Z]) /\ in_ax x (get 0 (s_pcur s') [1%Z])).
     { unfold magnet_of in M0, M1. cbn [nofZ NumR] in M0, M1.
-      split; [destruct M0 as [->|[->|->]]|destruct M1 as [->|[->|->]]]; assumption. }
+      split.
+      - destruct M0 as [E|[E|E]]; rewrite E; assumption.
+      - destruct M1 as [E|[E|E]]; rewrite E; assumption. }
     split; [exact Hok'|]. split.
     + intros k Hk. rewrite B in Hk. rewrite D.
       destruct (Z.eq_dec k (s_count s)) as [->|Hne].
